@@ -9,6 +9,8 @@ import (
 
 	"github.com/goblimey/go-ntrip/jsonconfig"
 	rtcm "github.com/goblimey/go-ntrip/rtcm/handler"
+
+	"github.com/goblimey/go-ntrip/verifhook"
 )
 
 // Handler provides code to handle a text file containing RTCM3 messages, possibly
@@ -74,6 +76,7 @@ func (handler *Handler) Handle(startTime time.Time, reader *bufio.Reader) error 
 	byteChan := make(chan byte)
 	// Ensure that the byte channel is closed on return.
 	defer close(byteChan)
+	defer verifhook.At("reader.return")
 
 	// Set up an RTCM handler connected to the input and output channels
 	// and start it running.
@@ -146,6 +149,7 @@ func (handler *Handler) Handle(startTime time.Time, reader *bufio.Reader) error 
 			// byte to the channel.
 			timeOfFirstEOF = nil
 			// em := "read one byte\n"
+			verifhook.At("reader.send", int(buf[0]))
 			byteChan <- buf[0]
 		}
 	}
